@@ -322,8 +322,21 @@ pub fn drive(args: &HashMap<String, String>) {
             gen_srcs.push(JobSrc { key: format!("rand{}:{}", i, sigils[k]), text: p.render(sigils[k]), file: "*verif*".to_string(), search: vec![] });
         }
     }
+    // 3b. de-inlining ties: two nested lets of which the inner one only renames the outer one's value, so that "both let
+    //     functions kept separate" and "only the inner one" are programs of (nearly) the same size; the padding string moves
+    //     the sizes across each other.  Whatever order the search tries its candidates in must not depend on the length of
+    //     generated names (the counter crosses 10^5, 10^6 and 10^12 below)
+    if n_gen > 0 {
+        for pad in (56..=80).step_by(if n_gen > 1000 { 1 } else { 2 }) {
+            for (k, sig) in ["*standard-cl-23*", "*standard-cl-24*"].iter().enumerate() {
+                let text = format!("(mod (X Y) (include {sig}) (defun F (X Y) (let ((v2 (* (* Y Y 8) Y (* Y Y Y)))) (+ (let ((v3 v2)) (concat (logand v2 v2 Y Y) (+ v2 Y v2 v3 Y Y Y Y))) (strlen \"{}\")))) (F X Y))", "abcdefghijklmnopqrstuvwxyz".repeat(4)[..pad].to_string());
+                gen_srcs.push(JobSrc { key: format!("tie{pad}:{k}"), text, file: "*verif*".to_string(), search: vec![] });
+            }
+        }
+    }
     for j in &gen_srcs {
-        for c0 in [8usize, 98, 998, 99_998] {
+        let tie = j.key.starts_with("tie");
+        for c0 in [8usize, 98, 998, 99_998].into_iter().chain(if tie { vec![100_000usize, 999_998, 1_000_000_000_000] } else { vec![] }) {
             hists.push(json!({"c0": c0, "m0": true, "events": [["begin", 1, job_json(j)], ["end", 1, j.key]], "main_thread": true, "source": "generated"}));
         }
     }
